@@ -20,7 +20,7 @@ LEVEL = "model_checking"
 ENGINE = "E1 table + E2 history enumeration (states = event sequences, un-merged)"
 RULE = (
     "table: tempo maps of <= 4 events over gaps {1,2,5} and long maps of 9..65 events x every tick 0..last+3 x every hint 0..len; histories: every "
-    "sequence of <= L ticks over {0,1,4,5,6,9,10,11,20} in any order, for each of 9 event kinds and each map; distinct = "
+    "sequence of <= L ticks over {0,1,4,5,6,9,10,11,20} in any order, for each of 10 event kinds and each map; distinct = "
     "distinct (map, kind, sequence) or (map, tick, hint); non-trivial = sequence has >= 2 events or hint > 0"
 )
 ASSUMPTIONS = [
@@ -36,7 +36,7 @@ HMAPS = (
     ((0, 120000),),
     ((0, 60000), (10, 60000), (11, 120000)),
 )
-KINDS = ("TS", "text", "section", "lyric", "S", "E", "N0", "N6", "N12")
+KINDS = ("TS", "text", "section", "lyric", "S", "E", "N0", "N6", "N12", "NC")
 
 PROBE_SRC = '''
 def probe(c):
@@ -125,6 +125,8 @@ def line_for(kind, t, i):
         return "tr", "%d = S 2 %d" % (t, 3)
     if kind == "E":
         return "tr", "%d = E e%d" % (t, i)
+    if kind == "NC":  # chord: unsustained lane written first, held lane second, tap flag carrying a length last
+        return "tr", ["%d = N %d 0" % (t, i % 2), "%d = N %d 7" % (t, 2 + i % 3), "%d = N 6 9" % t]
     return "tr", "%d = N %d %s" % (t, i % 5, kind[1:])
 
 
@@ -133,7 +135,7 @@ def hist_text(tempo, kind, seq):
     ev, tr = [], []
     for i, t in enumerate(seq):
         where, ln = line_for(kind, t, i)
-        {"sync": sync, "ev": ev, "tr": tr}[where].append(ln)
+        {"sync": sync, "ev": ev, "tr": tr}[where].extend(ln if isinstance(ln, list) else [ln])
     return mk(res=4, sync=sync, events=ev, tracks={"ExpertSingle": tr})
 
 
